@@ -18,5 +18,15 @@ for p in sorted(glob.glob(os.path.join(V, "evidence", "*.json"))):
     except jsonschema.ValidationError as e:
         bad += 1
         print("INVALID", p, e.message[:300])
+m = json.load(open(os.path.join(V, "MANIFEST.json")))
+for c in m["checks"]:
+    ep = os.path.join(V, c["evidence_file"])
+    if os.path.exists(ep):
+        lv = json.load(open(ep)).get("level")
+        if lv != c["level_claimed"]["category"]:
+            bad += 1
+            print("LEVEL MISMATCH", c["property_id"], c["level_claimed"]["category"], lv)
+    else:
+        print("note: no evidence yet for", c["property_id"])
 print("manifest ok; evidence files checked:", len(glob.glob(os.path.join(V, "evidence", "*.json"))), "invalid:", bad)
 sys.exit(1 if bad else 0)
